@@ -707,7 +707,10 @@ def mon_c03(sc, res):
                     expect.append((f["caller"], f["origin"], "error"))
         # every expected final answer must appear exactly once among the responses of this step
         responses = [(d, v) for d, ok, v in sends if not (isinstance(v, tuple) and v and v[0] == "unparsable") and is_response(v)]
+        failed_to = set(d for d, ok, v in sends if not ok)
         for (c, oid, chk) in expect:
+            if c in itr.closed[si] or c in failed_to:
+                continue        # the caller's own connection ended / refused a write in this step: nothing can be owed to it
             hits = [i for i, (d, v) in enumerate(responses) if d == c and cget(v, b"id") == oid and (
                 (chk == "error" and has_member(v, b"error")) or (chk != "error" and has_member(v, chk[0]) and cget(v, chk[0]) == chk[1]))]
             if not hits:
